@@ -1,17 +1,11 @@
 package s0281
 
-type G3 struct {
-	F0x0x0x0 int32
-}
-
-type G2 struct {
-	F0x0x0 []G3
-}
-
 type G1 struct {
-	F0x0 []G2
+	F1x0 []int64
+	F1x1 []uint32
 }
 
 type T struct {
-	F0 G1
+	F0 int32
+	F1 []G1
 }
